@@ -11,6 +11,7 @@ NOTE = ("Trusted base: z3 5.1; the engine's fork/replay logic; the numpy/pandas 
         "lru_cache/joblib transparency; the size bounds listed in the evidence file.")
 
 CLAIMED = {
+    "C08": ("2 (C08)", "ForecastingGridSearchCV / ForecastingRandomizedSearchCV fit executed symbolically (real evaluate, real splitter, real ParameterGrid/clone/set_params) over plain, pipeline (nested f__p) and multiplexer base forecasters with symbolic fold scores; cv_results_ rows, optimality of best_index_ in the declared direction, best_params_/best_score_, refit on the whole series, predict/update/cutoff delegation and NotFittedError without refit are proved on every ordering of the scores."),
     "C09": ("2 (C09)", "EnsembleForecaster (mean/median/min/max), TransformedTargetForecaster (with skip-inverse tags, transform/inverse_transform), MultiplexForecaster, StackingForecaster and two nestings executed symbolically around recording member / transformer / meta-regressor stubs with uninterpreted outputs; forecasts proved equal to the composition of the parts, and the data every inner estimator receives at fit and after an update proved to be in the right representation."),
     "C07": ("2 (C07)", "The real evaluate() executed symbolically with the real expanding / sliding / single-window splitters (symbolic window, step, horizon, index origin, series values), a recording forecaster and an asymmetric uninterpreted scoring function; per fold the row's cutoff, training-window length and score = S(y_true, y_pred), the data handed to fit/update/predict, absence of leakage, X slices and returned data are proved for every path."),
     "C05": ("2 (C05)", "make_reduction with the four strategies and both scitypes executed symbolically around a recording regressor stub whose predictions are uninterpreted functions; every training row / target / prediction input is proved to be exactly the documented lag window (symbolic series values and index origin; window, horizon and series length forked within the bounds); recursive and dirrec forecasts proved equal to an independently built reference recursion."),
